@@ -88,6 +88,10 @@ def _worker(args):
         )
 
 
+def _worker_batch(batch):
+    return [_worker(item) for item in batch]
+
+
 def _worker_init():
     os.environ.setdefault("OMP_NUM_THREADS", "1")
     os.environ.setdefault("NUMBA_NUM_THREADS", "1")
@@ -165,11 +169,12 @@ def run_bounded(prop, tier, seed, budget_s, extra_cases=()):
         ctx = mp.get_context("forkserver")
         with ctx.Pool(nproc, initializer=_worker_init) as pool:
             chunk = max(1, min(64, len(cases) // (nproc * 16)))
-            it = pool.imap_unordered(_worker, [(prop, c) for c in cases], chunksize=chunk)
+            batches = [[(prop, c) for c in cases[i:i + chunk]] for i in range(0, len(cases), chunk)]
+            it = pool.imap_unordered(_worker_batch, batches, chunksize=1)
             while True:
                 try:
                     remaining = budget_s - (time.time() - t0)
-                    outs.append(it.next(timeout=max(1.0, remaining)))
+                    outs.extend(it.next(timeout=max(1.0, remaining)))
                 except StopIteration:
                     break
                 except mp.TimeoutError:
